@@ -315,3 +315,78 @@ Lemma gc_ge o active p : nodup_plan p -> ge_plan p (gc o active p).
 Proof. intros H. apply gc_fold_ge. assumption. Qed.
 Lemma gc_nodup o active p : nodup_plan p -> nodup_plan (gc o active p).
 Proof. intros H. apply gc_fold_ge. assumption. Qed.
+
+(* ---- recoverOrphanTransfers only rewrites states: same shards, flags, loads and keys ---- *)
+Lemma recover_from_length p k l : length (recover_from p k l) = length l.
+Proof. revert k. induction l as [|s r IH]; intros k; simpl; auto. Qed.
+Lemma recover_length p : length (recover p) = length p.
+Proof. apply recover_from_length. Qed.
+
+Lemma nth_recover_from p k0 l k d : (k < length l)%nat ->
+  nth k (recover_from p k0 l) d = recover_shard p (k0 + k) (nth k l d).
+Proof.
+  revert k0 k. induction l as [|s r IH]; intros k0 [|k] H; simpl in *; try lia.
+  - now rewrite Nat.add_0_r.
+  - rewrite IH by lia. f_equal. lia.
+Qed.
+
+Lemma recover_shard_flags p k s :
+  si_ok (recover_shard p k s) = si_ok s /\ si_idle (recover_shard p k s) = si_idle s /\
+  si_head (recover_shard p k s) = si_head s /\ si_proc (recover_shard p k s) = si_proc s.
+Proof. unfold recover_shard. destruct (si_ok s) eqn:E; simpl; auto. Qed.
+
+Lemma recover_shard_keys p k s : akeys (scr_of (recover_shard p k s)) = akeys (scr_of s).
+Proof.
+  unfold recover_shard. destruct (si_ok s); [|reflexivity]. cbn [scr_of set_scr si_scr]. unfold akeys.
+  generalize (scr_of s). intros m. induction m as [|[h c] r IH]; simpl; [reflexivity|].
+  destruct (_ && _); simpl; now rewrite IH.
+Qed.
+
+Lemma nth_si_recover p k : nth_si (recover p) k = if Nat.ltb k (length p) then recover_shard p k (nth_si p k) else dflt.
+Proof.
+  unfold nth_si, recover. destruct (Nat.ltb_spec k (length p)) as [H|H].
+  - now rewrite nth_recover_from.
+  - apply nth_overflow. now rewrite recover_from_length.
+Qed.
+
+Lemma recover_flags p k :
+  si_ok (nth_si (recover p) k) = si_ok (nth_si p k) /\ si_idle (nth_si (recover p) k) = si_idle (nth_si p k) /\
+  si_head (nth_si (recover p) k) = si_head (nth_si p k) /\ si_proc (nth_si (recover p) k) = si_proc (nth_si p k).
+Proof.
+  rewrite nth_si_recover. destruct (Nat.ltb_spec k (length p)) as [H|H]; [apply recover_shard_flags|].
+  rewrite nth_si_out by assumption. auto.
+Qed.
+
+Lemma recover_keys p k : keys_at (recover p) k = keys_at p k.
+Proof.
+  unfold keys_at. rewrite nth_si_recover. destruct (Nat.ltb_spec k (length p)) as [H|H]; [apply recover_shard_keys|].
+  now rewrite nth_si_out by assumption.
+Qed.
+
+Lemma recover_le p : le_plan p (recover p).
+Proof.
+  constructor.
+  - now rewrite recover_length.
+  - intros k. now rewrite (proj1 (recover_flags p k)).
+  - intros k. now rewrite (proj1 (proj2 (recover_flags p k))).
+  - intros k h. now rewrite recover_keys.
+Qed.
+
+Lemma recover_nodup p : nodup_plan p -> nodup_plan (recover p).
+Proof. intros H k. fold (keys_at (recover p) k). rewrite recover_keys. apply H. Qed.
+
+(* an entry after the pass is the entry before it, possibly put back to normal; nothing else about it changes *)
+Lemma recover_find p k h c :
+  afind h (scr_of (nth_si (recover p) k)) = Some c ->
+  exists c0, afind h (scr_of (nth_si p k)) = Some c0 /\
+             c_health c = c_health c0 /\ c_series c = c_series c0 /\ c_total c = c_total c0 /\ c_times c = c_times c0 /\
+             (c_state c = c_state c0 \/ c_state c0 = InTransfer /\ c_state c = Normal).
+Proof.
+  rewrite nth_si_recover. destruct (Nat.ltb_spec k (length p)) as [H|H]; [|simpl; discriminate].
+  unfold recover_shard. destruct (si_ok (nth_si p k)); [|intros E; exists c; auto 10].
+  simpl. generalize (scr_of (nth_si p k)). intros m. induction m as [|[h' c'] r IH]; simpl; [discriminate|].
+  destruct (tstate_eqb (c_state c') InTransfer && orphan p k h') eqn:Eo; simpl.
+  - destruct (N.eqb_spec h h'); [|exact IH]. intros [= <-]. exists c'. simpl.
+    apply andb_true_iff in Eo. destruct Eo as [Es _]. destruct (c_state c'); try discriminate. auto 10.
+  - destruct (N.eqb_spec h h'); [|exact IH]. intros [= <-]. exists c'. auto 10.
+Qed.
